@@ -95,3 +95,62 @@ Fixpoint descend_in (fuel : nat) (a b : nat) (self : tree) : option tree :=
 
 Definition find_in (root : tree) (a b : nat) : option nat :=
   if inside root a b then Some (nid root) else option_map nid (descend_in (size root) a b root).
+
+(* ---- allow_exact: True (above), 'top' and False ----
+   A node whose bounding location IS the span: with 'top' the first such node met on the way down is returned at once (the
+   highest of several nodes at the same location, an Expr and its expression), with False the search stops ABOVE it (the
+   span must lie inside the node returned without touching both of its ends); for the search root itself: 'top' returns it,
+   False finds nothing. *)
+Inductive mode := MExact | MTop | MStrict.
+
+Definition exact (t : tree) (a b : nat) : bool := Nat.eqb (st t) a && Nat.eqb (en t) b.
+
+Inductive verdict_m := StayM | IntoM (t : tree) | StopM (t : tree).
+
+Fixpoint scan_m (m : mode) (fuel : nat) (a b : nat) (todo : list tree) : verdict_m :=
+  match fuel with
+  | 0 => StayM
+  | S f =>
+      match todo with
+      | [] => StayM
+      | x :: rest =>
+          if Nat.leb (en x) a then scan_m m f a b (kids x ++ rest)
+          else if Nat.ltb a (st x) then StayM
+          else if Nat.ltb (en x) b then scan_m m f a b rest
+          else if exact x a b then match m with MExact => IntoM x | MTop => StopM x | MStrict => StayM end
+          else IntoM x
+      end
+  end.
+
+Fixpoint descend_m (m : mode) (fuel : nat) (a b : nat) (self : tree) : tree :=
+  match fuel with
+  | 0 => self
+  | S f => match scan_m m (S (sizes (kids self))) a b (kids self) with
+           | StayM => self
+           | StopM x => x
+           | IntoM x => descend_m m f a b x
+           end
+  end.
+
+Definition find_contains_m (m : mode) (root : tree) (a b : nat) : option nat :=
+  if contains root a b then
+    if exact root a b then match m with MExact => Some (nid (descend_m m (size root) a b root)) | MTop => Some (nid root) | MStrict => None end
+    else Some (nid (descend_m m (size root) a b root))
+  else None.
+
+(* the nodes entered below `self` by the search with allow_exact=True, in order *)
+Fixpoint path (fuel : nat) (a b : nat) (self : tree) : list tree :=
+  match fuel with
+  | 0 => []
+  | S f => match scan (S (sizes (kids self))) a b (kids self) with
+           | Stay => []
+           | Into x => x :: path f a b x
+           end
+  end.
+
+(* the first element that satisfies p, else d; the last element before the first that satisfies p, else the last one (d for none) *)
+Fixpoint first_or (p : tree -> bool) (l : list tree) (d : tree) : tree :=
+  match l with [] => d | x :: r => if p x then x else first_or p r (last r x) end.
+
+Fixpoint before_first (p : tree -> bool) (l : list tree) (d : tree) : tree :=
+  match l with [] => d | x :: r => if p x then d else before_first p r x end.
